@@ -126,6 +126,15 @@ def h_fault(params):
             }
             _expect_raise(calls[which], which)
         # ---- the database is what it was, consistent, and still usable
+        def file_ok(stage):
+            if h.storage == "csv":  # what an independent reader of the file sees
+                from .. import files
+
+                pts, why = files.decode_file(h.path)
+                require(pts is not None, lambda: f"{stage}: the file {why}")
+                h.req_points(pts, h.model.pts, f"file contents {stage}")
+
+        file_ok(f"after failed {kind}")
         h.check_contents(f"contents after failed {kind}")
         inv = h.check_inv(f"after failed {kind}")
         h.check_reads(h.q(("tag", "k", "==", "a")), None, what=f"read after failed {kind}")
@@ -137,6 +146,7 @@ def h_fault(params):
             apply_op(h, ("rm", ("tag", "k", "==", "a")))
         elif nxt == "upd":
             apply_op(h, ("upd", ("tag", "k", "==", "a"), {"fields": {"f": 1}}))
+        file_ok(f"after {nxt} following the failed {kind}")
         h.check_contents(f"contents after {nxt} following the failed {kind}")
         h.check_inv(f"after {nxt} following the failed {kind}")
         h.check_reads(h.q(("time", "<", SYM)), None, what=f"read after {nxt} following the failed {kind}")
@@ -169,7 +179,7 @@ def obligations(tier):
         for slot in ("time", "measurement", "tags", "fields"):
             for bad in ("raise",) + (("invalid",) if slot in ("time", "measurement") else ()):
                 for q in (B, A2) if th else (B,):
-                    obs.append(_ob(f"callable/{slot}/{bad}/{q_repr(q)}/{cname}", kind="callable", slot=slot, bad=bad, q=q, ai=ai, reindex_before=rx, n=3 if th else 2, next="ins", torder="sym" if th else "ooo"))
+                    obs.append(_ob(f"callable/{slot}/{bad}/{q_repr(q)}/{cname}", kind="callable", slot=slot, bad=bad, q=q, ai=ai, reindex_before=rx, n=3 if (th or cname != "scan") else 2, next="ins", torder="sym" if th else "ooo"))
                 obs.append(_ob(f"callable-update_all/{slot}/{bad}/{cname}", kind="callable", slot=slot, bad=bad, q=B, all=True, ai=ai, reindex_before=rx, n=2, next="rm", torder="ooo"))
         for which in STATIC:
             obs.append(_ob(f"static/{which}/{cname}", kind="static", which=which, ai=ai, reindex_before=rx, n=2, next="ins", torder="ooo"))
